@@ -4,8 +4,8 @@
    nesting of groups); none is a finite sample.  The model (Model/C15.v) is tied to partitura's
    merge_parts by the correspondence run of harness/props/c15.py on every check.
    Output elements are tagged with the index of the part they come from: In (j, e') out. *)
-From PV Require Import Lib.Base Model.C05 Model.C05_Spec Model.C15 Model.C15_Spec
-     Proofs.C05_lib Proofs.C15 Proofs.C15_link Proofs.C15_ex Proofs.C15_ext.
+From PV Require Import Lib.Base Model.C05 Model.C05_Spec Model.C15 Model.C15_Spec Model.C15_Hist
+     Proofs.C05_lib Proofs.C15 Proofs.C15_link Proofs.C15_ex Proofs.C15_ext Proofs.C15_hist.
 From Coq Require Import Permutation.
 #[local] Open Scope Z_scope.
 
@@ -333,3 +333,159 @@ Theorem extension_examples :
   load_as_part [px_p0; px_p1] = merge_parts MVoice [TPart px_p0; TPart px_p1] /\ load_as_part [px_p1] = RSingle px_p1.
 Proof. exact ext_examples. Qed.
 Print Assumptions extension_examples.
+
+(* ------------------------------------------------------------------ state carried between calls *)
+
+(* A Score holds two views of its parts (the flat list `parts`, the nested `part_structure`); item
+   assignment, append / pop on the list and the replacement unfold_part_* performs change `parts` only.
+   For EVERY history of such operations: the state reached is (the list operations applied to the
+   flattened part list, the structure given at construction) ... *)
+Theorem score_state_after_history : forall partlist ops s,
+  srun ops (score_init partlist) = Some s <->
+  (lrun ops (flat_map flatten partlist) = Some (sc_parts s) /\ sc_structure s = partlist).
+Proof. exact score_state_lemma. Qed.
+Print Assumptions score_state_after_history.
+
+(* ... and what merge_parts(score), score.note_array() and len(score) observe is a function of the
+   CURRENT flat part list alone (forall history, observation = f (current state)) *)
+Theorem score_history_reads_current : forall m partlist ops,
+  option_map (merge_parts_score m) (srun ops (score_init partlist)) =
+  option_map (fun l => merge_parts m (map TPart l)) (lrun ops (flat_map flatten partlist)) /\
+  option_map score_rows (srun ops (score_init partlist)) =
+  option_map (fun l => match parts_rows l with Some arrs => Some (score_array false arrs) | None => None end)
+             (lrun ops (flat_map flatten partlist)) /\
+  option_map score_len (srun ops (score_init partlist)) =
+  option_map (@List.length part) (lrun ops (flat_map flatten partlist)).
+Proof. exact score_history_lemma. Qed.
+Print Assumptions score_history_reads_current.
+
+(* the structure a score was built from never matters *)
+Theorem score_structure_irrelevant : forall m s s', sc_parts s = sc_parts s' ->
+  merge_parts_score m s = merge_parts_score m s' /\ score_rows s = score_rows s' /\ score_len s = score_len s'.
+Proof. exact score_structure_irrelevant_lemma. Qed.
+Print Assumptions score_structure_irrelevant.
+
+(* a score nothing happened to is the Score argument of dispatch_same_result; reads leave no trace *)
+Theorem fresh_score_and_reads : 
+  (forall m partlist, merge_parts_score m (score_init partlist) = merge_parts_arg m (AScore partlist)) /\
+  (forall a b s, srun (a ++ SObserve :: b) s = srun (a ++ b) s).
+Proof. split; [exact fresh_score_lemma | exact observe_silent_lemma]. Qed.
+Print Assumptions fresh_score_and_reads.
+
+(* score[i] = p: position i holds p, every other position and the length are unchanged; defined exactly
+   for the positions the list has *)
+Theorem setitem_spec : forall i (p : part) l,
+  (forall l', lstep l (SSetItem i p) = Some l' ->
+     nth_error l' i = Some p /\ List.length l' = List.length l /\ forall j, j <> i -> nth_error l' j = nth_error l j) /\
+  ((i < List.length l)%nat -> exists l', lstep l (SSetItem i p) = Some l') /\
+  (forall l', lstep l (SPop i) = Some l' -> l' = firstn i l ++ skipn (S i) l).
+Proof.
+  intros i p l. split; [intros l'; exact (set_nth_spec i p l l')|].
+  split; [exact (set_nth_defined i p l) | intros l'; exact (pop_nth_spec i l l')].
+Qed.
+Print Assumptions setitem_spec.
+
+(* O1 for a score with a history: the merged part counts in the lcm of the divisions of the parts the score
+   holds NOW, and every element of it is an element of one of THOSE parts at the same musical time *)
+Theorem score_history_time_preserved : forall m partlist ops s L out,
+  srun ops (score_init partlist) = Some s ->
+  merge_parts_score m s = RMerged L out -> divs_pos (sc_parts s) ->
+  L = lcm_list (divs_of (sc_parts s)) /\ 0 < L /\
+  forall j e', In (j, e') out ->
+  exists es d e, nth_error (sc_parts s) j = Some (es, d) /\ In e es /\ core e' = core e /\
+                 (d | L) /\ same_time L d e e'.
+Proof. exact score_history_time_lemma. Qed.
+Print Assumptions score_history_time_preserved.
+
+(* ... without any hypothesis on divisions: nothing of a part that was replaced (or of the folded copies an
+   unfolded score still holds in its structure) is in the merged part *)
+Theorem score_history_only_current : forall m partlist ops s L out,
+  srun ops (score_init partlist) = Some s ->
+  merge_parts_score m s = RMerged L out ->
+  forall j e', In (j, e') out -> exists es d e, nth_error (sc_parts s) j = Some (es, d) /\ In e es /\ core e' = core e.
+Proof. exact score_history_only_current_lemma. Qed.
+Print Assumptions score_history_only_current.
+
+(* O5 for a score with a history: the sounding notes of the merged part equal those of the note array of
+   the SAME score object *)
+Theorem score_history_array_link : forall m partlist ops s L out,
+  srun ops (score_init partlist) = Some s ->
+  merge_parts_score m s = RMerged L out -> divs_pos (sc_parts s) -> ties_ok (sc_parts s) ->
+  exists rows arrs,
+    merged_rows L out = Some rows /\ parts_rows (sc_parts s) = Some arrs /\
+    score_rows s = Some (score_array false arrs) /\
+    Permutation (map (qkey (score_lcm arrs)) rows) (map (qkey L) (score_array false arrs)).
+Proof. exact score_history_link_lemma. Qed.
+Print Assumptions score_history_array_link.
+
+(* non-vacuity: score = Score([a, b]); score[1] = c; a merge walking part_structure merges a and b instead of
+   a and c *)
+Theorem merge_by_structure_refuted :
+  exists m partlist ops s,
+    srun ops (score_init partlist) = Some s /\
+    merge_parts_score_by_structure m s <> merge_parts_score m s /\
+    (exists out, merge_parts_score m s = RMerged 12 out /\ map (fun x => e_oid (snd x)) out = [1; 3; 4]) /\
+    (exists out, merge_parts_score_by_structure m s = RMerged 12 out /\ map (fun x => e_oid (snd x)) out = [1; 2]).
+Proof. exact by_structure_refuted_lemma. Qed.
+Print Assumptions merge_by_structure_refuted.
+
+(* non-vacuity: a read, then score[1] = c: a score memoising its part list at the first read merges stale parts *)
+Theorem score_memo_refuted :
+  exists m partlist ops s ms,
+    srun ops (score_init partlist) = Some s /\
+    mrun ops (mkMScore (score_init partlist) None) = Some ms /\ ms_score ms = s /\
+    merge_parts_memo m ms <> merge_parts_score m s.
+Proof. exact memo_refuted_lemma. Qed.
+Print Assumptions score_memo_refuted.
+
+(* parts edited between two calls (elements added / removed, voices / staves / divisions changed): O1 and O2
+   hold for the parts as they are when merge_parts is called *)
+Theorem edited_parts_time_and_voices : forall ps0 eds,
+  (forall m L out, merge_parts m (map TPart (edit_parts eds ps0)) = RMerged L out -> divs_pos (edit_parts eds ps0) ->
+     L = lcm_list (divs_of (edit_parts eds ps0)) /\ 0 < L /\
+     forall j e', In (j, e') out ->
+     exists es d e, nth_error (edit_parts eds ps0) j = Some (es, d) /\ In e es /\ core e' = core e /\
+                    (d | L) /\ same_time L d e e') /\
+  (forall L out, merge_parts MVoice (map TPart (edit_parts eds ps0)) = RMerged L out ->
+     parts_good voices_ok (edit_parts eds ps0) ->
+     forall j1 j2 e1 e2, In (j1, e1) out -> In (j2, e2) out -> j1 <> j2 -> generic e1 -> generic e2 ->
+     e_voice e1 <> e_voice e2) /\
+  (forall j, (forall x, In x eds -> fst x <> j) -> nth_error (edit_parts eds ps0) j = nth_error ps0 j).
+Proof.
+  intros ps0 eds. split; [intros m L out; exact (edited_time_lemma m ps0 eds L out)|].
+  split; [intros L out; exact (edited_voices_disjoint_lemma ps0 eds L out) | exact (edit_parts_untouched eds ps0)].
+Qed.
+Print Assumptions edited_parts_time_and_voices.
+
+(* non-vacuity: a note in a new voice added to the first input after it was looked at; voice offsets remembered
+   from the earlier look make the second input collide with it, the code's offsets do not *)
+Theorem edit_memo_refuted :
+  exists ps0 eds out e1 e2,
+    merge_voice_memo_offsets ps0 (edit_parts eds ps0) = Some out /\
+    In (0%nat, e1) out /\ In (1%nat, e2) out /\ generic e1 /\ generic e2 /\ e_voice e1 = e_voice e2 /\
+    parts_good voices_ok (edit_parts eds ps0) /\
+    exists L out', merge_parts MVoice (map TPart (edit_parts eds ps0)) = RMerged L out' /\
+                   map (fun x => (e_oid (snd x), e_voice (snd x))) out' = [(1, Some 1); (5, Some 2); (2, Some 3)].
+Proof. exact edit_memo_refuted_lemma. Qed.
+Print Assumptions edit_memo_refuted.
+
+(* histories of merges of ANY depth (a merged part merged again, its result merged again, ...; one part given:
+   returned as it is): the final part counts in L > 0 and every element of it is an element of one of the parts
+   as they were BUILT, at the musical time it had there (start' * d = start * L, end likewise, d | L) *)
+Theorem nested_merge_time_preserved : forall t es L,
+  meval t = Some (es, L) -> Forall (fun p => 0 < snd p) (leaves t) ->
+  0 < L /\
+  forall e', In e' es ->
+  exists es0 d e, In (es0, d) (leaves t) /\ In e es0 /\ core e' = core e /\ (d | L) /\ same_time L d e e'.
+Proof. exact nested_merge_lemma. Qed.
+Print Assumptions nested_merge_time_preserved.
+
+(* non-vacuity: ((a + b in "voice" mode) + c in "auto" mode) + d in "staff" mode; divisions 4, 6 -> 12; 12, 3 -> 12;
+   12, 5 -> 60 *)
+Theorem nested_merge_example :
+  exists es, meval hx_tree = Some (es, 60) /\
+    map (fun e => (e_oid e, e_start e, e_end e)) es =
+      [(1, 0, Some 60); (2, 0, Some 60); (3, 0, Some 60); (4, 60, Some 120); (6, 60, Some 120)] /\
+    leaves hx_tree = [hx_a; hx_b; hx_c; hx_d].
+Proof. exact nested_example_lemma. Qed.
+Print Assumptions nested_merge_example.
